@@ -96,8 +96,11 @@ pub fn assemble(toks: &Value, layout: usize, between: usize, cmt: bool) -> Strin
                 if cmt { text.push_str("  // trailing comment\n"); }
                 continue;
             }
+            if t == "<SKIP>" {
+                continue; // the value slot of an element that is a bare token (a description)
+            }
             if !text.is_empty() { text.push_str(gap); }
-            text.push_str(&t.replace("<U1>", "é日本").replace("<U2>", "Règle é日"));
+            text.push_str(&t.replace("<U1>", "é日本").replace("<U2>", "Règle é日").replace("<TAB>", "\t"));
         }
         parts.push(text);
     }
@@ -105,7 +108,7 @@ pub fn assemble(toks: &Value, layout: usize, between: usize, cmt: bool) -> Strin
 }
 
 fn unexpand(v: &Value) -> Value {
-    serde_json::from_str(&v.to_string().replace("é日本", "<U1>").replace("Règle é日", "<U2>")).unwrap()
+    serde_json::from_str(&v.to_string().replace("é日本", "<U1>").replace("Règle é日", "<U2>").replace("\\t", "<TAB>")).unwrap()
 }
 
 pub fn parse_all(text: &str) -> Value {
